@@ -4,6 +4,7 @@ import (
 	"bytes"
 	"encoding/json"
 	"fmt"
+	"time"
 
 	smtp "github.com/emersion/go-smtp"
 
@@ -20,7 +21,7 @@ type c07Case struct {
 	Conv    int     `json:"conv"`  // index into corpus()
 	Name    string  `json:"name"`
 	Cut     int     `json:"cut"`     // number of client octets delivered before the failure (-1: abandon case)
-	Kind    string  `json:"kind"`    // close | timeout | reset
+	Kind    string  `json:"kind"`    // close | timeout | reset | deadline (ReadTimeout set, the armed read deadline is fired at the cut and the peer then carries on with the rest)
 	Seg     string  `json:"seg"`     // one | line | bytes
 	Abandon string  `json:"abandon"` // "", RSET, QUIT, HELLO, disconnect, srvclose
 	Chunks  int     `json:"chunks"`  // abandon cases: number of non-LAST chunks sent before abandoning
@@ -36,7 +37,7 @@ func init() {
 
 func c07Run(ctx *core.Ctx) {
 	cs := corpus()
-	ctx.Rule = fmt.Sprintf("crash-point enumeration: every octet offset of %d DATA/BDAT conversations (SMTP, LMTP, LMTP per-recipient; dot-stuffed bodies, bodies ending inside CRLF., 1-3 chunks, two messages per connection) x failure kind {clean close, timeout-flavoured read error, reset-flavoured read error} x segmentation {one segment, per line%s}; plus every abandoning command {RSET, QUIT, new EHLO/LHLO, disconnect, Server.Close} after 0..2 non-LAST chunks. Non-trivial: the cut leaves a message incomplete; distinct by full case.", len(cs), map[bool]string{true: ", octet-by-octet", false: ""}[ctx.Thorough()])
+	ctx.Rule = fmt.Sprintf("crash-point enumeration: every octet offset of %d DATA/BDAT conversations (SMTP, LMTP, LMTP per-recipient; dot-stuffed bodies, bodies ending inside CRLF., 1-3 chunks, two messages per connection) x failure kind {clean close, timeout-flavoured read error, reset-flavoured read error, read deadline expiring (ReadTimeout set, virtual clock) with the peer carrying on afterwards} x segmentation {one segment, per line%s}; plus every abandoning command {RSET, QUIT, new EHLO/LHLO, disconnect, Server.Close} after 0..2 non-LAST chunks. Non-trivial: the cut leaves a message incomplete; distinct by full case.", len(cs), map[bool]string{true: ", octet-by-octet", false: ""}[ctx.Thorough()])
 	ctx.Exhaustive = true
 	ctx.Assumptions = []string{"exhaustive over the offsets of the corpus conversations only", "backend reads until the reader fails and returns that error"}
 	core.RunCases(ctx, func(emit func(c07Case)) {
@@ -50,6 +51,11 @@ func c07Run(ctx *core.Ctx) {
 				for ki, kind := range []string{"close", "timeout", "reset"} {
 					for _, sg := range segs {
 						emit(c07Case{Conv: ci, Name: c.Name, Cut: cut, Kind: kind, Seg: sg, Mode: c.Mode})
+					}
+					if ki == 0 {
+						// "times out": the read deadline expires at this point of the conversation,
+						// after which the peer carries on sending the rest
+						emit(c07Case{Conv: ci, Name: c.Name, Cut: cut, Kind: "deadline", Seg: segs[cut%2], Mode: c.Mode})
 					}
 					// the same crash points with a size limit exactly at / one above the message size
 					if len(c.Msgs[0]) > 0 {
@@ -137,6 +143,9 @@ func c07Exec(ctx *core.Ctx, c c07Case) {
 		case "plus1":
 			s.MaxMessageBytes = int64(len(cv.Msgs[0])) + 1
 		}
+		if c.Kind == "deadline" {
+			s.ReadTimeout = time.Hour // virtual clock: expires only when the harness fires it
+		}
 	})
 	rig.BE.H.Data = func(sess int, r *rec.Reader, st smtp.StatusCollector) error {
 		err := r.ReadAll(64)
@@ -148,6 +157,29 @@ func c07Exec(ctx *core.Ctx, c c07Case) {
 	p := rig.Dial()
 	sendPrefix(p, all[:c.Cut], c.Seg)
 	switch c.Kind {
+	case "deadline":
+		idle, werr := p.Raw.WaitPeerIdle(wire.Watchdog)
+		if werr != nil {
+			p.Close()
+			rig.Finish()
+			ctx.Inconclusive(fmt.Sprintf("C07 deadline: server did not go idle conv=%s cut=%d", cv.Name, c.Cut))
+			return
+		}
+		if !idle {
+			// the server has already ended the connection (QUIT was among the octets sent)
+			p.Raw.CloseWrite()
+			break
+		}
+		if !p.SrvEnd.FireReadDeadline() {
+			// no deadline is armed here: nothing times out, the case degenerates to a clean close
+			ctx.Add("cuts_where_no_read_deadline_was_armed", 1)
+			p.Raw.CloseWrite()
+			break
+		}
+		rig.Log.Act("read deadline fired; the peer carries on")
+		ctx.Add("read_deadlines_fired", 1)
+		sendPrefix(p, all[c.Cut:], c.Seg)
+		p.Raw.CloseWrite()
 	case "timeout":
 		p.Raw.CloseWriteWithError(memconn.ErrTimeout)
 	case "reset":
@@ -178,6 +210,27 @@ func c07Exec(ctx *core.Ctx, c c07Case) {
 			return
 		}
 		isComplete := c.Cut >= complete[k]
+		if c.Kind == "deadline" && !isComplete {
+			// the peer carried on after the timeout: only the message whose transfer was in
+			// progress when the deadline expired is "cut"; what an implementation that keeps the
+			// connection makes of later messages is not this property's subject
+			start := 0
+			for _, st := range cv.Steps {
+				if st.Msg == k {
+					break
+				}
+				start += len(st.B)
+			}
+			first := true
+			for j := 0; j < k; j++ {
+				if c.Cut < complete[j] {
+					first = false
+				}
+			}
+			if !first || c.Cut < start {
+				break
+			}
+		}
 		if !isComplete {
 			if d.B == "EOF" || d.B == "" {
 				transfer := "data"
@@ -222,6 +275,9 @@ func c07Exec(ctx *core.Ctx, c c07Case) {
 	}
 	if partialCarriesMsg {
 		for i := expected; i < len(replies); i++ {
+			if c.Kind == "deadline" && i > expected {
+				break // the peer carried on: later replies may answer later commands
+			}
 			if replies[i].Class() == 2 {
 				fail("C07:positive-reply-for-incomplete-message", fmt.Sprintf("reply #%d (%s) is positive although the message it answers was not received in full", i, replies[i]))
 				return
